@@ -12,6 +12,7 @@
   the start node and the event's node on top of `namespaces_in_scope(start)`, so every start tag,
   end tag and attribute name the run renders resolves, in exactly those declarations, to the
   node's name (for every tree whose elements declare no prefix twice, every start node).
+  Names in the XML namespace are always written with the reserved `xml` prefix (/repo 061eba4).
   Full strength is FALSE for elements (`C10_sound_Statement`): a no-namespace element inside the
   scope of a default-namespace declaration is written unprefixed.
 -/
@@ -22,16 +23,26 @@ import XotModel.Lemmas.TraceInv
 namespace XotModel.Props
 open XotModel
 
+/-- The namespace a prefix denotes in the scope `fs`: the `xml` prefix is reserved (XML Namespaces
+    §3: bound by definition to the XML namespace), any other prefix has its nearest declaration. -/
+def resolvePrefix (fs : Frames) (p : Nat) : Option Nat :=
+  if p == Env.xmlPrefix then some Env.xmlNamespace else lookupFrames fs p
+
 /-- The namespace an element name written with prefix `p` (`none` = unprefixed) denotes in the scope
     `fs` (XML Namespaces §6.2: an unprefixed element takes the default namespace, if any). -/
 def resolveElementName (fs : Frames) : Option Nat → Option Nat
-  | some p => lookupFrames fs p
+  | some p => resolvePrefix fs p
   | none => some ((lookupFrames fs Env.emptyPrefix).getD Env.noNamespace)
 
 /-- … an attribute name (an unprefixed attribute is in no namespace). -/
 def resolveAttributeName (fs : Frames) : Option Nat → Option Nat
-  | some p => lookupFrames fs p
+  | some p => resolvePrefix fs p
   | none => some Env.noNamespace
+
+/-- Namespace constraint on the tree: the reserved prefix `xml` is not declared for another
+    namespace (XML Namespaces §3, "Reserved Prefixes and Namespace Names"). -/
+def XmlPrefixReserved (fs : Frames) : Prop :=
+  ∀ n, lookupFrames fs Env.xmlPrefix = some n → n = Env.xmlNamespace
 
 /-! ### The stack invariant -/
 
@@ -62,17 +73,29 @@ theorem C10_stack_pop (s : FStack) (decls : List (Nat × Nat)) :
 
 /-! ### Soundness of the chosen prefix -/
 
+/-- Under the reserved-prefix constraint, XML-Namespaces resolution of a prefix is its nearest
+    declaration. -/
+theorem C10_resolve_lookup {fs : Frames} (hx : XmlPrefixReserved fs) {q ns : Nat}
+    (hl : lookupFrames fs q = some ns) : resolvePrefix fs q = some ns := by
+  unfold resolvePrefix
+  by_cases hq : (q == Env.xmlPrefix) = true
+  · have : q = Env.xmlPrefix := by simpa using hq
+    subst this
+    simp [hx ns hl]
+  · simp [hq, hl]
+
 /-- Full-strength statement for element names: whatever `element_prefix` answers resolves to the
     name's namespace.  FALSE for the code as written (`C10_sound_false`). -/
 def C10_sound_Statement : Prop :=
   ∀ (env : Env) (s : FStack) (fs : Frames) (name : Nat) (p : Option Nat),
-    StackInv s fs → s.elementPrefix env name = .ok p →
+    StackInv s fs → XmlPrefixReserved fs → s.elementPrefix env name = .ok p →
     resolveElementName fs p = some (env.nsOfName name)
 
 /-- `_partial`: true under the guard that excludes exactly the defect — a name in no namespace
-    while a default namespace is in scope. -/
+    while a default namespace is in scope.  Names in the XML namespace get the reserved `xml`
+    prefix whatever the stack holds. -/
 theorem C10_sound_partial (env : Env) (s : FStack) (fs : Frames) (name : Nat) (p : Option Nat)
-    (hinv : StackInv s fs) (h : s.elementPrefix env name = .ok p)
+    (hinv : StackInv s fs) (hx : XmlPrefixReserved fs) (h : s.elementPrefix env name = .ok p)
     (guard : env.nsOfName name = Env.noNamespace →
       (lookupFrames fs Env.emptyPrefix).getD Env.noNamespace = Env.noNamespace) :
     resolveElementName fs p = some (env.nsOfName name) := by
@@ -84,26 +107,31 @@ theorem C10_sound_partial (env : Env) (s : FStack) (fs : Frames) (name : Nat) (p
     have hz : env.nsOfName name = Env.noNamespace := by simpa using hns
     simp [resolveElementName, guard hz, hz]
   · simp only [hns] at h
-    cases hp : elementPrefixByNamespace s.top (env.nsOfName name) with
-    | none => simp [hp] at h
-    | some q =>
-      have hmem := elementPrefixByNamespace_mem hp
-      have hl := (hflat q _).mp hmem
-      simp only [hp] at h
-      by_cases hq : (q == Env.emptyPrefix) = true
-      · simp only [hq, if_true] at h
-        cases h
-        have : q = Env.emptyPrefix := by simpa using hq
-        subst this
-        simp [resolveElementName, hl]
-      · simp only [hq] at h
-        cases h
-        simpa [resolveElementName] using hl
+    by_cases hxml : (env.nsOfName name == Env.xmlNamespace) = true
+    · simp only [hxml, if_true] at h
+      cases h
+      have hz : env.nsOfName name = Env.xmlNamespace := by simpa using hxml
+      simp [resolveElementName, resolvePrefix, hz]
+    · simp only [hxml] at h
+      cases hp : elementPrefixByNamespace s.top (env.nsOfName name) with
+      | none => simp [hp] at h
+      | some q =>
+        have hl := (hflat q _).mp (elementPrefixByNamespace_mem hp)
+        simp only [hp] at h
+        by_cases hq : (q == Env.emptyPrefix) = true
+        · simp only [hq, if_true] at h
+          cases h
+          have : q = Env.emptyPrefix := by simpa using hq
+          subst this
+          simp [resolveElementName, hl]
+        · simp only [hq] at h
+          cases h
+          simpa [resolveElementName] using C10_resolve_lookup hx hl
 
 /-- Attribute names: full strength, no guard — the chosen prefix resolves to the attribute's
     namespace, and an attribute is written unprefixed only when it is in no namespace. -/
 theorem C10_sound_attribute (env : Env) (s : FStack) (fs : Frames) (name : Nat) (p : Option Nat)
-    (hinv : StackInv s fs) (h : s.attributePrefix env name = .ok p) :
+    (hinv : StackInv s fs) (hx : XmlPrefixReserved fs) (h : s.attributePrefix env name = .ok p) :
     resolveAttributeName fs p = some (env.nsOfName name) ∧ p ≠ some Env.emptyPrefix := by
   obtain ⟨_, hflat⟩ := hinv.flat
   unfold FStack.attributePrefix at h
@@ -113,56 +141,69 @@ theorem C10_sound_attribute (env : Env) (s : FStack) (fs : Frames) (name : Nat) 
     have hz : env.nsOfName name = Env.noNamespace := by simpa using hns
     simp [resolveAttributeName, hz]
   · simp only [hns] at h
-    cases hp : attributePrefixByNamespace s.top (env.nsOfName name) with
-    | none => simp [hp] at h
-    | some q =>
-      obtain ⟨hmem, hne⟩ := attributePrefixByNamespace_mem hp
-      have hl := (hflat q _).mp hmem
-      simp only [hp] at h
+    by_cases hxml : (env.nsOfName name == Env.xmlNamespace) = true
+    · simp only [hxml, if_true] at h
       cases h
-      exact ⟨by simpa [resolveAttributeName] using hl, by simpa using hne⟩
+      have hz : env.nsOfName name = Env.xmlNamespace := by simpa using hxml
+      refine ⟨by simp [resolveAttributeName, resolvePrefix, hz], by decide⟩
+    · simp only [hxml] at h
+      cases hp : attributePrefixByNamespace s.top (env.nsOfName name) with
+      | none => simp [hp] at h
+      | some q =>
+        obtain ⟨hmem, hne⟩ := attributePrefixByNamespace_mem hp
+        have hl := (hflat q _).mp hmem
+        simp only [hp] at h
+        cases h
+        exact ⟨by simpa [resolveAttributeName] using C10_resolve_lookup hx hl, by simpa using hne⟩
 
 /-- The defect as a closed witness: name 0 in no namespace (`names = [("b", 0)]`), scope
     `xmlns = namespace 2`: `element_prefix` answers "unprefixed", which resolves to namespace 2. -/
 theorem C10_sound_false : ¬ C10_sound_Statement := by
   intro h
   have := h ⟨[], [], [(['b'], 0)]⟩ (FStack.new [(0, 2)]) [[(0, 2)]] 0 none
-    (StackInv.base _ (by unfold UniquePrefixes; decide)) rfl
+    (StackInv.base _ (by unfold UniquePrefixes; decide)) (by intro n hn; simp [lookupFrames, List.lookup, Env.xmlPrefix] at hn) rfl
   revert this
   decide
 
 /-! ### Errors: exactly when no usable prefix is in scope -/
 
 /-- `element_prefix` fails (always with `MissingPrefix` of the name's namespace) iff the name is in
-    a namespace that no prefix in scope — empty or not — is bound to. -/
+    a namespace other than the XML namespace that no prefix in scope — empty or not — is bound to. -/
 theorem C10_error_element (env : Env) (s : FStack) (fs : Frames) (name : Nat) (hinv : StackInv s fs) :
     (∃ e, s.elementPrefix env name = .error e) ↔
-      (env.nsOfName name ≠ Env.noNamespace ∧ ∀ p, lookupFrames fs p ≠ some (env.nsOfName name)) := by
+      (env.nsOfName name ≠ Env.noNamespace ∧ env.nsOfName name ≠ Env.xmlNamespace ∧
+        ∀ p, lookupFrames fs p ≠ some (env.nsOfName name)) := by
   obtain ⟨_, hflat⟩ := hinv.flat
   unfold FStack.elementPrefix
   by_cases hns : (env.nsOfName name == Env.noNamespace) = true
   · have hz : env.nsOfName name = Env.noNamespace := by simpa using hns
     simp [hz]
   · have hz : env.nsOfName name ≠ Env.noNamespace := by simpa using hns
-    simp only [hns, hz, ne_eq, not_false_eq_true, true_and]
-    cases hp : elementPrefixByNamespace s.top (env.nsOfName name) with
-    | none =>
-      simp only [Bool.false_eq_true, if_false]
-      refine ⟨fun _ p hl => ?_, fun _ => ⟨_, rfl⟩⟩
-      exact elementPrefixByNamespace_none hp p ((hflat p _).mpr hl)
-    | some q =>
-      have hl := (hflat q _).mp (elementPrefixByNamespace_mem hp)
-      simp only []
+    by_cases hxml : (env.nsOfName name == Env.xmlNamespace) = true
+    · have hz2 : env.nsOfName name = Env.xmlNamespace := by simpa using hxml
       constructor
-      · rintro ⟨e, he⟩
-        by_cases hq : (q == Env.emptyPrefix) = true <;> simp [hq] at he
-      · intro hall; exact absurd hl (hall q)
+      · rintro ⟨e, he⟩; simp [hns, hxml] at he
+      · intro h; exact absurd hz2 h.2.1
+    · have hz2 : env.nsOfName name ≠ Env.xmlNamespace := by simpa using hxml
+      simp only [hns, hxml, hz, hz2, ne_eq, not_false_eq_true, true_and, Bool.false_eq_true, if_false]
+      cases hp : elementPrefixByNamespace s.top (env.nsOfName name) with
+      | none =>
+        refine ⟨fun _ p hl => ?_, fun _ => ⟨_, rfl⟩⟩
+        exact elementPrefixByNamespace_none hp p ((hflat p _).mpr hl)
+      | some q =>
+        have hl := (hflat q _).mp (elementPrefixByNamespace_mem hp)
+        simp only []
+        constructor
+        · rintro ⟨e, he⟩
+          by_cases hq : (q == Env.emptyPrefix) = true <;> simp [hq] at he
+        · intro hall; exact absurd hl (hall q)
 
-/-- `attribute_prefix` fails iff the name is in a namespace that no non-empty prefix in scope is
-    bound to (a default-namespace declaration does not help an attribute). -/
+/-- `attribute_prefix` fails iff the name is in a namespace other than the XML namespace that no
+    non-empty prefix in scope is bound to (a default-namespace declaration does not help an
+    attribute). -/
 theorem C10_error_attribute (env : Env) (s : FStack) (fs : Frames) (name : Nat) (hinv : StackInv s fs) :
     (∃ e, s.attributePrefix env name = .error e) ↔
-      (env.nsOfName name ≠ Env.noNamespace ∧
+      (env.nsOfName name ≠ Env.noNamespace ∧ env.nsOfName name ≠ Env.xmlNamespace ∧
         ∀ p, p ≠ Env.emptyPrefix → lookupFrames fs p ≠ some (env.nsOfName name)) := by
   obtain ⟨_, hflat⟩ := hinv.flat
   unfold FStack.attributePrefix
@@ -170,19 +211,24 @@ theorem C10_error_attribute (env : Env) (s : FStack) (fs : Frames) (name : Nat) 
   · have hz : env.nsOfName name = Env.noNamespace := by simpa using hns
     simp [hz]
   · have hz : env.nsOfName name ≠ Env.noNamespace := by simpa using hns
-    simp only [hns, hz, ne_eq, not_false_eq_true, true_and]
-    cases hp : attributePrefixByNamespace s.top (env.nsOfName name) with
-    | none =>
-      simp only [Bool.false_eq_true, if_false]
-      refine ⟨fun _ p hpe hl => ?_, fun _ => ⟨_, rfl⟩⟩
-      exact attributePrefixByNamespace_none hp p hpe ((hflat p _).mpr hl)
-    | some q =>
-      obtain ⟨hmem, hne⟩ := attributePrefixByNamespace_mem hp
-      have hl := (hflat q _).mp hmem
-      simp only []
+    by_cases hxml : (env.nsOfName name == Env.xmlNamespace) = true
+    · have hz2 : env.nsOfName name = Env.xmlNamespace := by simpa using hxml
       constructor
-      · rintro ⟨e, he⟩; cases he
-      · intro hall; exact absurd hl (hall q hne)
+      · rintro ⟨e, he⟩; simp [hns, hxml] at he
+      · intro h; exact absurd hz2 h.2.1
+    · have hz2 : env.nsOfName name ≠ Env.xmlNamespace := by simpa using hxml
+      simp only [hns, hxml, hz, hz2, ne_eq, not_false_eq_true, true_and, Bool.false_eq_true, if_false]
+      cases hp : attributePrefixByNamespace s.top (env.nsOfName name) with
+      | none =>
+        refine ⟨fun _ p hpe hl => ?_, fun _ => ⟨_, rfl⟩⟩
+        exact attributePrefixByNamespace_none hp p hpe ((hflat p _).mpr hl)
+      | some q =>
+        obtain ⟨hmem, hne⟩ := attributePrefixByNamespace_mem hp
+        have hl := (hflat q _).mp hmem
+        simp only []
+        constructor
+        · rintro ⟨e, he⟩; cases he
+        · intro hall; exact absurd hl (hall q hne)
 
 /-! ### The serialisation run -/
 
@@ -209,12 +255,13 @@ theorem C10_sound_tree_partial (esc : Escapers) (env : Env) (pr : TokenParams) (
     (hnode : t.at? p = some node)
     (hpfx : (s.push node.nsDecls).elementPrefix env name = .ok pfx) :
     ∃ rel, p = start ++ rel ∧
-      ((env.nsOfName name = Env.noNamespace →
+      (XmlPrefixReserved (framesAlong n rel ++ [inScope]) →
+        (env.nsOfName name = Env.noNamespace →
           (lookupFrames (framesAlong n rel ++ [inScope]) Env.emptyPrefix).getD Env.noNamespace = Env.noNamespace) →
         resolveElementName (framesAlong n rel ++ [inScope]) pfx = some (env.nsOfName name)) := by
   obtain ⟨rel, hp, hinv⟩ := genOutputs_trace esc env pr t start n inScope hat hs hu _ hx
   simp only at hp hinv
-  refine ⟨rel, hp, fun guard => ?_⟩
+  refine ⟨rel, hp, fun hxr guard => ?_⟩
   have hrel : n.at? rel = some node := by
     have := hnode
     rw [hp, at?_append, hat] at this
@@ -232,10 +279,10 @@ theorem C10_sound_tree_partial (esc : Escapers) (env : Env) (pr : TokenParams) (
   have hframe : frameOf node = node.nsDecls := by simp [frameOf, hval]
   obtain ⟨rest, hfr⟩ := framesAlong_head n rel node hrel
   have hun : UniquePrefixes node.nsDecls := by rw [← hframe]; exact hu rel node hrel
-  rw [hfr, hframe] at hinv guard ⊢
+  rw [hfr, hframe] at hinv guard hxr ⊢
   simp only [framesFor, List.tail_cons] at hinv
   have hinv' := hinv.push' hun
-  exact C10_sound_partial env _ _ name pfx hinv' hpfx (by simpa using guard)
+  exact C10_sound_partial env _ _ name pfx hinv' (by simpa using hxr) hpfx (by simpa using guard)
 
 /-- End tags of the run resolve the same way (same guard). -/
 theorem C10_sound_tree_endtag_partial (esc : Escapers) (env : Env) (pr : TokenParams) (t : Tree)
@@ -245,12 +292,13 @@ theorem C10_sound_tree_endtag_partial (esc : Escapers) (env : Env) (pr : TokenPa
     (hx : (s, p, .endTag name) ∈ stackTrace esc env pr t (initStack t start) (genOutputs t start))
     (hpfx : s.elementPrefix env name = .ok pfx) :
     ∃ rel, p = start ++ rel ∧
-      ((env.nsOfName name = Env.noNamespace →
+      (XmlPrefixReserved (framesAlong n rel ++ [inScope]) →
+        (env.nsOfName name = Env.noNamespace →
           (lookupFrames (framesAlong n rel ++ [inScope]) Env.emptyPrefix).getD Env.noNamespace = Env.noNamespace) →
         resolveElementName (framesAlong n rel ++ [inScope]) pfx = some (env.nsOfName name)) := by
   obtain ⟨rel, hp, hinv⟩ := genOutputs_trace esc env pr t start n inScope hat hs hu _ hx
   simp only [framesFor] at hp hinv
-  exact ⟨rel, hp, fun guard => C10_sound_partial env _ _ name pfx hinv hpfx guard⟩
+  exact ⟨rel, hp, fun hxr guard => C10_sound_partial env _ _ name pfx hinv hxr hpfx guard⟩
 
 /-- Attribute names of the run: full strength — the prefix used resolves to the attribute's
     namespace in the declarations of the open elements (its own element included). -/
@@ -261,15 +309,18 @@ theorem C10_sound_tree_attribute (esc : Escapers) (env : Env) (pr : TokenParams)
     (hx : (s, p, .attribute name v) ∈ stackTrace esc env pr t (initStack t start) (genOutputs t start))
     (hpfx : s.attributePrefix env name = .ok pfx) :
     ∃ rel, p = start ++ rel ∧
-      resolveAttributeName (framesAlong n rel ++ [inScope]) pfx = some (env.nsOfName name) := by
+      (XmlPrefixReserved (framesAlong n rel ++ [inScope]) →
+        resolveAttributeName (framesAlong n rel ++ [inScope]) pfx = some (env.nsOfName name)) := by
   obtain ⟨rel, hp, hinv⟩ := genOutputs_trace esc env pr t start n inScope hat hs hu _ hx
   simp only [framesFor] at hp hinv
-  exact ⟨rel, hp, (C10_sound_attribute env _ _ name pfx hinv hpfx).1⟩
+  exact ⟨rel, hp, fun hxr => (C10_sound_attribute env _ _ name pfx hinv hxr hpfx).1⟩
 
 /-- Non-vacuity: `<a xmlns:p="2"><p:b/></a>`-like scope — name 0 = `b` in namespace 2, prefix 5
     bound to it two frames up, an unrelated frame in between. -/
 example : resolveElementName [[(4, 3)], [], [(5, 2)]] (some 5) = some 2 := by decide
 example : (FStack.new [(5, 2)]).elementPrefix ⟨[], [], [(['b'], 2)]⟩ 0 = .ok (some 5) := rfl
+/-- `xml:lang` (namespace 1) with another prefix bound to the XML namespace: the `xml` prefix is used. -/
+example : (FStack.new [(1, 1), (2, 1)]).attributePrefix ⟨[], [], [(['l'], 1)]⟩ 0 = .ok (some 1) := rfl
 
 /-- Non-vacuity of the tree-level theorems: in `<a xmlns:p5="ns2"><b/></a>` (both names in
     namespace 2) the run reaches `<b` holding the stack `[[xml, p5↦2], [xml]]`; `b` is written with
